@@ -10,11 +10,17 @@
    list of events is a schedule that respects program order ([Wk] is a no-op when the worker has nothing to
    do), and quantifying over lists of events quantifies over all interleavings.
 
+   Code versions.  The record [code] says which of two historical defects the modelled code still has;
+   [code_now] is /repo as it is now (after fix commits 5d55599b and 53f68db6), [code_3e543e6e] is the code
+   before those repairs (kept so that the _refuted theorems remain statements about the OLD behaviour):
+   - [status_needs_worker]: LocalJob.status dereferenced _worker, which is None during (and after an escaped)
+     synchronous run (repaired by 5d55599b: the worker is only consulted when there is one);
+   - [cb_keyword_kept]: the progress_callback keyword was read but never removed from kwargs, so
+     _handle_params rejected it (repaired by 53f68db6: kwargs.pop).
+
    Faithful to the code as it is, including:
-   - LocalJob.status dereferences _worker, which is None during (and after an escaped) synchronous run;
    - LocalJob.status "repairs" a running status to SUCCESS when the worker thread is dead (reachable when the
      task raises something that is not an Exception, which _call_fn_safe does not catch);
-   - the progress_callback keyword is read but never removed from kwargs, so _handle_params rejects it;
    - a rejected execute keeps the partial updates of _delta_parameters and of _user_cb;
    - after a cancel request the user's progress callback is no longer invoked;
    - get_results on a failed job returns None when there is no result mapping function. *)
@@ -133,7 +139,11 @@ Record st := mkst {
   sync_ret : option gres                                        (* environment: what execute_sync returned/raised *)
 }.
 
-Record cfg := mkcfg { names : list Z; cmd0 : kw; mapp0 : kw; has_map : bool; ucb0 : option Z }.
+Record code := mkcode { status_needs_worker : bool; cb_keyword_kept : bool }.
+Definition code_now : code := mkcode false false.            (* /repo after 5d55599b and 53f68db6 *)
+Definition code_3e543e6e : code := mkcode true true.         (* /repo before those repairs *)
+
+Record cfg := mkcfg { names : list Z; cmd0 : kw; mapp0 : kw; has_map : bool; ucb0 : option Z; ver : code }.
 
 Definition init (c : cfg) : st :=
   mkst Waiting 0 0 MNone false WNone None (has_map c) (ucb0 c) (cmd0 c) (mapp0 c) false PIdle [] [] None.
@@ -162,18 +172,19 @@ Definition start_run (s : st) : st := set_status s Running (progress s) (msg s).
 Inductive sview := SOk (x : rstatus) (p ph : Z) (m : smsg) | SAttrErr.
 
 (* LocalJob.status (a property with a side effect) *)
-Definition do_status (s : st) : st * sview :=
+Definition do_status (c : cfg) (s : st) : st * sview :=
   if is_running (status s) then
     match worker s with
-    | WNone => (s, SAttrErr)                                   (* None.is_alive() *)
+    | WNone => if status_needs_worker (ver c) then (s, SAttrErr)            (* old code: None.is_alive() *)
+               else (s, SOk (status s) (progress s) (phase s) (msg s))     (* `self._worker is not None and ...` *)
     | WAlive => (s, SOk (status s) (progress s) (phase s) (msg s))
     | WDead => let s' := stop_run s Success MNone in (s', SOk (status s') (progress s') (phase s') (msg s'))
     end
   else (s, SOk (status s) (progress s) (phase s) (msg s)).
 
 (* Job.get_results + LocalJob._get_results *)
-Definition do_get (s : st) : st * gres :=
-  match do_status s with
+Definition do_get (c : cfg) (s : st) : st * gres :=
+  match do_status c s with
   | (s1, SAttrErr) => (s1, GAttrErr)
   | (s1, SOk x _ _ m) =>
       if negb (maybe_completed x) then (s1, GStillRunning)
@@ -194,8 +205,10 @@ Definition do_exec (c : cfg) (s : st) (m : mode) (args : list Z) (kwargs : list 
   match status s with
   | Waiting =>
       let s1 := match lookup N_PROGRESS_CB kwargs with Some cb => set_ucb s (Some cb) | None => s end in
+      (* now: self._user_cb = kwargs.pop('progress_callback'); old code: kwargs['progress_callback'] *)
+      let kwargs1 := if cb_keyword_kept (ver c) then kwargs else remove_key N_PROGRESS_CB kwargs in
       let cmd1 := dset (cmd s1) N_PROGRESS_CB (Some 0) in      (* command['progress_callback'] = self._progress_cb *)
-      match handle_params (names c) cmd1 (mapp s1) args kwargs with
+      match handle_params (names c) cmd1 (mapp s1) args kwargs1 with
       | (c2, m2, Some e) => (set_delta s1 c2 m2, XRejected e)
       | (c2, m2, None) =>
           let s2 := start_run (set_delta s1 c2 m2) in
@@ -219,7 +232,7 @@ Definition task_result (p : prog) (early : bool) (args : kw) : res :=
 Definition finish_worker (s : st) : st :=
   if sync s then set_pc s PSyncRet else set_pc (set_worker s WDead) PDone.
 
-Definition wk (p : prog) (s : st) : st * obs :=
+Definition wk (c : cfg) (p : prog) (s : st) : st * obs :=
   match pc s with
   | PIdle | PDone => (s, ONop)
   | PStart => (* _call_fn_safe: start_run(); fn( **command ) is entered *)
@@ -246,15 +259,15 @@ Definition wk (p : prog) (s : st) : st * obs :=
       end
   | PRet => (finish_worker (if cancel s then stop_run s Canceled MCancel else stop_run s Success MNone), OFinished)
   | PExc ty m => (finish_worker (stop_run s Error (MErr ty m)), OFinished)
-  | PSyncRet => let (s1, g) := do_get s in (set_pc (set_sync_ret s1 g) PDone, OSyncRet g)
+  | PSyncRet => let (s1, g) := do_get c s in (set_pc (set_sync_ret s1 g) PDone, OSyncRet g)
   end.
 
 Definition step (c : cfg) (p : prog) (s : st) (e : ev) : st * obs :=
   match e with
-  | Wk => wk p s
-  | Act AStatus => let (s', v) := do_status s in (s', OStatus v)
+  | Wk => wk c p s
+  | Act AStatus => let (s', v) := do_status c s in (s', OStatus v)
   | Act ACancel => (set_cancel s, OUnit)
-  | Act AGet => let (s', g) := do_get s in (s', OGet g)
+  | Act AGet => let (s', g) := do_get c s in (s', OGet g)
   | Act (AExec m a k) => let (s', x) := do_exec c s m a k in (s', OExec x)
   | Act (ASetCb cb) => (set_ucb s cb, OUnit)
   end.
